@@ -85,10 +85,25 @@ def ob_numeric(cx):
     R = cx.mod(RS)
     last = cx.int("last", 0, cx.p("maxlast"))
     n = cx.int("n", -cx.p("maxn"), cx.p("maxn"))
-    form = cx.pick("form", ["revno:%d", "%d", "last:%d", "before:%d", "before:revno:%d"])
+    form = cx.pick("form", ["revno:%d", "%d", "last:%d", "before:%d", "before:revno:%d", "before:before:%d",
+                            "before:before:revno:%d", "before:last:%d"])
     spec = fmt(form, n)
     b = _Branch(cx, last)
-    if form in ("revno:%d", "%d"):
+    if form.startswith("before:before:") or form == "before:last:%d":
+        # specifiers nest: before:X is the revision before whatever X names
+        if form == "before:last:%d":
+            inner = (last - n + 1) if (cx.truth(n >= 1) and cx.truth(n <= last + 1)) else None
+            steps = 1
+            inner_ok = True
+        else:
+            inner = _revno_of(cx, n, last)
+            steps = 2
+            inner_ok = inner is not None
+        want = inner
+        for _k in range(steps):
+            want = None if (want is None or cx.truth(want == 0)) else want - 1
+        cx.cover("nested")
+    elif form in ("revno:%d", "%d"):
         want = _revno_of(cx, n, last)
         inner_ok = want is not None
         if cx.truth(n < 0):
@@ -102,7 +117,7 @@ def ob_numeric(cx):
         inner_ok = base is not None
         want = None if (base is None or cx.truth(base == 0)) else base - 1
         cx.cover("before")
-    if form in ("%d", "before:%d") and not inner_ok:
+    if form in ("%d", "before:%d", "before:before:%d") and not inner_ok:
         # a bare number that is not a revision number is next tried as tag / revision id / date / branch location,
         # which needs a real branch: outside this kernel
         cx.assume(False)
@@ -282,9 +297,9 @@ def obligations(tier):
            bounds="branch with 0..%(maplast)d mainline revisions and <= %(merged)d merged revisions carrying arbitrary distinct "
                   "dotted numbers a.b.c (a 0..number of mainline revisions, 0 = second root; b, c 1..%(maxc)d); query "
                   "revno:a.b.c arbitrary with a 0..%(maxc)d" % p),
-        Ob("numeric_specifiers", ob_numeric, [RS], p, to, 1, ["negative", "last", "before", "rejected", "resolved"],
+        Ob("numeric_specifiers", ob_numeric, [RS], p, to, 1, ["negative", "last", "before", "rejected", "resolved", "nested"],
            bounds="branch with 0..%(maxlast)d revisions, n in -%(maxn)d..%(maxn)d, forms revno:n / n / last:n / before:n / "
-                  "before:revno:n" % p),
+                  "before:revno:n / before:before:n / before:before:revno:n / before:last:n" % p),
         Ob("dotted_specifiers", ob_dotted, [RS], p, to, 1, ["dotted"],
            bounds="revno:a.b[.c] with components 0..%(maxn)d" % p),
         Ob("malformed_specifiers", ob_garbage, [RS], p, to, 2 if q else 1, ["rejected", "dotted", "number"],
